@@ -712,7 +712,10 @@ func (e *Exec) mapDelete(st *State, m Val, mt *types.Map, k Val) {
 // domain; its order is otherwise unconstrained (so results are proved for every iteration order).
 func (e *Exec) mapIterSeq(st *State, m Val, mt *types.Map) Val {
 	ks := e.sr.sortOf(mt.Key())
-	mv := e.mapValue(st, m, mt)
+	mv0 := e.mapValue(st, m, mt)
+	// name the map value: the iteration facts use it in patterns, where `ite` is not allowed
+	mv := e.sc.Fresh("itermap", mv0.Sort)
+	e.sc.Assert(Implies(st.pc, Eq(mv, mv0)))
 	seq := e.sc.Fresh("iter", SlcSort(ks))
 	e.sc.Assert(Ge(SlcLen(seq), IntLit(0)))
 	arr := SlcArr(seq)
